@@ -265,7 +265,7 @@ pub fn run(ctx: &mut Ctx) {
         |c| json!(to_espada(&c.range.map()).to_string()),
     );
     if ctx.tier == Tier::Thorough && !ctx.failed() {
-        crate::fuzzrun::campaign(ctx, "fz_range", 3000, 16, 400);
+        crate::fuzzrun::campaign(ctx, "fz_range", 1000, 16, 400);
     }
 }
 
